@@ -233,6 +233,12 @@ func (w *Writer) Delete(bs []byte) (success bool) {
 
 // Delete2 is same as Delete(). Additionally returns the deleted item's node
 func (w *Writer) Delete2(bs []byte) (n *skiplist.Node, success bool) {
+	// The node found by the lookup has to stay valid until it is deleted:
+	// another writer may delete and reclaim it in between.
+	barrier := w.store.GetAccesBarrier()
+	token := barrier.Acquire()
+	defer barrier.Release(token)
+
 	if n := w.GetNode(bs); n != nil {
 		return n, w.DeleteNode(n)
 	}
